@@ -1127,25 +1127,60 @@ type bnOrderItem struct {
 	Subs []bnOrder `json:"subs"`
 }
 
+// places the request decoder does not look at, but the validator does: an embedded non-struct type,
+// an unexported field (its rule speaks about an exported neighbour), a struct used as a map key (filled
+// in by the handler before binding, as nothing on the wire can name it)
+type BnAge int
+
+type bnEmbedInt struct {
+	BnAge `json:"n" vd:"$>0"`
+}
+
+type bnUnexported struct {
+	N     int  `json:"n"`
+	guard bool `vd:"(N)$>0"`
+}
+
+type bnKey struct {
+	N int `vd:"$>0"`
+}
+
+type bnKeyMap struct {
+	Name string           `json:"name"`
+	ByK  map[bnKey]string `json:"-"`
+}
+
+type bnInnerUnexported struct {
+	Name string `json:"name"`
+	In   struct {
+		N     int  `json:"n"`
+		guard bool `vd:"(N)$>0"`
+	} `json:"in"`
+}
+
 func TestC20BinderNested(t *testing.T) {
 	rec := ev.New("binder-nested")
 	cases := []struct {
 		name string
-		mk   func() interface{}
+		mk   func(n int) interface{}
 		body func(n int) string
 	}{
-		{"[]struct", func() interface{} { return &bnSlice{} }, func(n int) string { return fmt.Sprintf(`{"items":[{"n":1},{"n":%d}]}`, n) }},
-		{"[]*struct", func() interface{} { return &bnPtrSlice{} }, func(n int) string { return fmt.Sprintf(`{"items":[{"n":%d}]}`, n) }},
-		{"map[string]*struct", func() interface{} { return &bnMap{} }, func(n int) string { return fmt.Sprintf(`{"by_key":{"k":{"n":%d}}}`, n) }},
-		{"[][]struct", func() interface{} { return &bnNested{} }, func(n int) string { return fmt.Sprintf(`{"rows":[[{"n":%d}]]}`, n) }},
+		{"[]struct", func(n int) interface{} { return &bnSlice{} }, func(n int) string { return fmt.Sprintf(`{"items":[{"n":1},{"n":%d}]}`, n) }},
+		{"[]*struct", func(n int) interface{} { return &bnPtrSlice{} }, func(n int) string { return fmt.Sprintf(`{"items":[{"n":%d}]}`, n) }},
+		{"map[string]*struct", func(n int) interface{} { return &bnMap{} }, func(n int) string { return fmt.Sprintf(`{"by_key":{"k":{"n":%d}}}`, n) }},
+		{"[][]struct", func(n int) interface{} { return &bnNested{} }, func(n int) string { return fmt.Sprintf(`{"rows":[[{"n":%d}]]}`, n) }},
 		// the receiver itself is a slice / a map of structs
-		{"*[]struct receiver", func() interface{} { return &[]bnItem{} }, func(n int) string { return fmt.Sprintf(`[{"n":1},{"n":%d}]`, n) }},
-		{"*map[string]*struct receiver", func() interface{} { return &map[string]*bnItem{} }, func(n int) string { return fmt.Sprintf(`{"k":{"n":%d}}`, n) }},
-		{"interface field holding *struct", func() interface{} { return &bnEnvelope{Payload: &bnItem{}} }, func(n int) string { return fmt.Sprintf(`{"kind":"k","payload":{"n":%d}}`, n) }},
-		{"recursive []*T, rule after", func() interface{} { return &bnNodeAfter{} }, func(n int) string { return fmt.Sprintf(`{"n":1,"children":[{"n":%d}]}`, n) }},
-		{"recursive []*T, rule before", func() interface{} { return &bnNodeBefore{} }, func(n int) string { return fmt.Sprintf(`{"n":1,"children":[{"n":%d}]}`, n) }},
-		{"recursive map[string]T", func() interface{} { return &bnNodeMap{} }, func(n int) string { return fmt.Sprintf(`{"n":1,"children":{"k":{"n":%d}}}`, n) }},
-		{"mutually recursive pair", func() interface{} { return &bnOrder{} }, func(n int) string { return fmt.Sprintf(`{"items":[{"n":1,"subs":[{"items":[{"n":%d}]}]}]}`, n) }},
+		{"*[]struct receiver", func(n int) interface{} { return &[]bnItem{} }, func(n int) string { return fmt.Sprintf(`[{"n":1},{"n":%d}]`, n) }},
+		{"*map[string]*struct receiver", func(n int) interface{} { return &map[string]*bnItem{} }, func(n int) string { return fmt.Sprintf(`{"k":{"n":%d}}`, n) }},
+		{"interface field holding *struct", func(n int) interface{} { return &bnEnvelope{Payload: &bnItem{}} }, func(n int) string { return fmt.Sprintf(`{"kind":"k","payload":{"n":%d}}`, n) }},
+		{"recursive []*T, rule after", func(n int) interface{} { return &bnNodeAfter{} }, func(n int) string { return fmt.Sprintf(`{"n":1,"children":[{"n":%d}]}`, n) }},
+		{"recursive []*T, rule before", func(n int) interface{} { return &bnNodeBefore{} }, func(n int) string { return fmt.Sprintf(`{"n":1,"children":[{"n":%d}]}`, n) }},
+		{"recursive map[string]T", func(n int) interface{} { return &bnNodeMap{} }, func(n int) string { return fmt.Sprintf(`{"n":1,"children":{"k":{"n":%d}}}`, n) }},
+		{"mutually recursive pair", func(n int) interface{} { return &bnOrder{} }, func(n int) string { return fmt.Sprintf(`{"items":[{"n":1,"subs":[{"items":[{"n":%d}]}]}]}`, n) }},
+		{"embedded non-struct type", func(n int) interface{} { return &bnEmbedInt{} }, func(n int) string { return fmt.Sprintf(`{"n":%d}`, n) }},
+		{"unexported field with a rule", func(n int) interface{} { return &bnUnexported{} }, func(n int) string { return fmt.Sprintf(`{"n":%d}`, n) }},
+		{"unexported field with a rule, in a nested struct", func(n int) interface{} { return &bnInnerUnexported{} }, func(n int) string { return fmt.Sprintf(`{"name":"x","in":{"n":%d}}`, n) }},
+		{"struct as map key", func(n int) interface{} { return &bnKeyMap{ByK: map[bnKey]string{{N: n}: "v"}} }, func(n int) string { return `{"name":"x"}` }},
 	}
 	for _, c := range cases {
 		for _, n := range []int{-1, 0, 1, 7} {
@@ -1156,9 +1191,9 @@ func TestC20BinderNested(t *testing.T) {
 				t.Fatalf("harness: %v", err)
 			}
 			rec.Case(true, ev.HashString(c.name, fmt.Sprint(n)), "binder-nested-"+c.name)
-			obj := c.mk()
+			obj := c.mk(n)
 			errBV := binding.DefaultBinder().BindAndValidate(&r, obj, nil)
-			obj2 := c.mk()
+			obj2 := c.mk(n)
 			if err := binding.DefaultBinder().Bind(&r, obj2, nil); err != nil {
 				t.Fatalf("harness: Bind: %v", err)
 			}
